@@ -115,7 +115,7 @@ def invariant(env, name="buf"):
 
 # ---------------------------------------------------------------------------------------------------------------------------------
 # evaluation support: allocation, release, memory copies, and the default "evaluate callees of buffer.c on the shared heap" policy
-from .prog import FREED, HEAP_BASE, EvalError, evalx, callee_name, strip, is_e
+from .prog import FREED, HEAP_BASE, EvalError, evalx, callee_name, strip, is_e, key, PPtr
 from .interp import normx
 
 USER_IN = 5000000     # address of the caller's input bytes (evbuffer_add data)
@@ -173,11 +173,9 @@ def make_hook(P, fail_alloc=None, extra=None, stub=()):
                 e_["#nalloc"] = k + 1
                 if fail_alloc is not None and k == fail_alloc:
                     return 0
-                from .prog import PPtr
                 return PPtr(("n", k))
             if n in ("event_mm_free_", "free"):
                 p = evalx(normx(a[0]), e_, P)
-                from .prog import PPtr
                 if isinstance(p, PPtr):
                     if e_.get(("@", p.id, "#freed")):
                         viol(e_, "double free of %s" % (p.id,))
@@ -189,13 +187,50 @@ def make_hook(P, fail_alloc=None, extra=None, stub=()):
                 return 0
             if n in ("memset", "__builtin___memset_chk", "__builtin_memset"):
                 p = evalx(normx(a[0]), e_, P)
-                from .prog import PPtr
                 if isinstance(p, PPtr):
                     for fl in chain_fields:
                         e_[("@", p.id, "evbuffer_chain.%s" % fl)] = 0
                     return 0
                 return 0
             if n in ("memcpy", "memmove", "__builtin_memcpy", "__builtin___memcpy_chk", "__builtin___memmove_chk", "__builtin_memmove"):
+                da, sa_ = strip(normx(a[0])), strip(normx(a[1]))
+                if is_e(da, "addr") and is_e(strip(da[1]), "var") or (is_e(da, "var") and isinstance(e_.get(da[1]), PPtr) and isinstance(e_.get(da[1]).id, tuple) and e_.get(da[1]).id[:1] == ("loc",)):
+                    # whole-struct copy (memcpy(&it2, &it, sizeof(it)), memcpy(&it, start, sizeof(it))): copy the fields
+                    from .interp import struct_to_heap, heap_to_struct, nkey as _nk
+                    tmp = {}
+                    if is_e(sa_, "addr") and is_e(strip(sa_[1]), "var"):
+                        struct_to_heap(e_, key(strip(sa_[1])), ("tmpcopy",), tmp)
+                    else:
+                        sp = evalx(sa_, e_, P)
+                        if not isinstance(sp, PPtr):
+                            e_["#err"] = "struct copy from %r" % (sp,)
+                            return "impure"
+                        def rebase(o):
+                            if o == sp.id:
+                                return ("tmpcopy",)
+                            if isinstance(o, tuple) and len(o) == 3 and o[0] == "sub":
+                                return ("sub", rebase(o[1]), o[2])
+                            return None
+                        for k_, v_ in list(e_.items()):
+                            if isinstance(k_, tuple) and len(k_) == 3 and k_[0] == "@":
+                                nb_ = rebase(k_[1])
+                                if nb_ is not None:
+                                    tmp[("@", nb_, k_[2])] = PPtr(rebase(v_.id)) if isinstance(v_, PPtr) and rebase(v_.id) is not None else v_
+                    if is_e(da, "addr"):
+                        out = {}
+                        heap_to_struct(tmp, ("tmpcopy",), strip(da[1]), out)
+                        e_.update(out)
+                    else:
+                        dp = e_.get(da[1])
+                        def rebase2(o):
+                            if o == ("tmpcopy",):
+                                return dp.id
+                            if isinstance(o, tuple) and len(o) == 3 and o[0] == "sub":
+                                return ("sub", rebase2(o[1]), o[2])
+                            return o
+                        for k_, v_ in tmp.items():
+                            e_[("@", rebase2(k_[1]), k_[2])] = PPtr(rebase2(v_.id)) if isinstance(v_, PPtr) else v_
+                    return 0
                 d, s_, cnt = evalx(normx(a[0]), e_, P), evalx(normx(a[1]), e_, P), evalx(normx(a[2]), e_, P)
                 if not (isinstance(d, int) and isinstance(s_, int) and isinstance(cnt, int)):
                     e_["#err"] = "memcpy with non-address operand (%r, %r, %r)" % (d, s_, cnt)
